@@ -99,17 +99,37 @@ fn run_resource(sx: &sexpr::Sx) -> Vec<String> {
         // every line gets a field `sus=<0|1>`: the boundary's is_loading
         let under_sus = sx.list().len() > 2 && sx.list()[2].atom() == "sus";
         let mut boundary = None;
+        // `(resource (STEPS) two)`: the dependencies are a PAIR on((d, d2), ..) and the fetch is started for d + d2; an even write goes
+        // to d, an odd one to d2 (each so that the sum becomes the written value)
+        let two = sx.list().len() > 2 && sx.list()[2].atom() == "two";
+        // `(resource (STEPS) self)`: the fetch future itself moves the dependency on (to value + 1) when the value it received ends
+        // in 7, in its last poll, before returning that value (e.g. clamping a page number to the page count it just learnt)
+        let selfw = sx.list().len() > 2 && sx.list()[2].atom() == "self";
+        let mut dep2 = None;
         let root = create_root(|| {
             let d = create_signal(0i64);
+            let d2 = create_signal(0i64);
             dep = Some(d);
+            dep2 = Some(d2);
             let mk = move || {
-                create_isomorphic_resource(on(d, move || {
-                    let v = d.get();
+                let fetch = move || {
+                    let v = d.get() + d2.get();
                     let (tx, rx) = oneshot::channel::<i64>();
                     s2.borrow_mut().push(Some(tx));
                     st2.borrow_mut().push(v);
-                    async move { rx.await.unwrap_or(-1) }
-                }))
+                    async move {
+                        let r = rx.await.unwrap_or(-1);
+                        if selfw && r.rem_euclid(10) == 7 {
+                            d.set(r + 1);
+                        }
+                        r
+                    }
+                };
+                if two {
+                    create_isomorphic_resource(on((d, d2), fetch))
+                } else {
+                    create_isomorphic_resource(on(d, fetch))
+                }
             };
             if under_sus {
                 let (r, scope) = sycamore_futures::create_suspense_scope(|| {
@@ -125,7 +145,7 @@ fn run_resource(sx: &sexpr::Sx) -> Vec<String> {
                 res = Some(mk());
             }
         });
-        let (dep, res) = (dep.unwrap(), res.unwrap());
+        let (dep, dep2, res) = (dep.unwrap(), dep2.unwrap(), res.unwrap());
         // `(resource (STEPS) fb)`: a feedback edge from the resource's value to its dependency, behind a selector: when the
         // value ends in 7 the dependency is moved on to value + 1 (following a redirect, loading the next page)
         if sx.list().len() > 2 && sx.list()[2].atom() == "fb" {
@@ -164,7 +184,13 @@ fn run_resource(sx: &sexpr::Sx) -> Vec<String> {
             match st[0].atom() {
                 "write" => {
                     let v: i64 = st[1].num();
-                    root.run_in(|| dep.set(v));
+                    root.run_in(|| {
+                        if two && v.rem_euclid(2) == 1 {
+                            dep2.set(v - dep.get_untracked())
+                        } else {
+                            dep.set(v - dep2.get_untracked())
+                        }
+                    });
                 }
                 "complete" => {
                     let k: usize = st[1].num();
@@ -213,7 +239,15 @@ fn main() {
             writeln!(out, "==").unwrap();
         }
         first = false;
-        for l in run_scenario(&line) {
+        // every scenario (= one sequence of renders) runs on a fresh thread: what the library keeps in thread-locals starts
+        // from its initial state, as on a thread that has rendered nothing yet
+        let lines = std::thread::Builder::new()
+            .stack_size(64 << 20)
+            .spawn(move || run_scenario(&line))
+            .unwrap()
+            .join()
+            .unwrap_or_else(|_| vec!["PANIC".to_string()]);
+        for l in lines {
             writeln!(out, "{l}").unwrap();
         }
     }
